@@ -27,10 +27,10 @@ type BuildCfg struct {
 }
 
 var buildCfgs = map[string]BuildCfg{
-	"linux64": {ID: "linux64", GOOS: "linux", GOARCH: "amd64"},
+	"linux64": {ID: "linux64", GOOS: "linux", GOARCH: "amd64", CGO: "0"},
 	"generic": {ID: "generic", GOOS: "darwin", GOARCH: "amd64", CGO: "0"},
 	"linux32": {ID: "linux32", GOOS: "linux", GOARCH: "386", CGO: "0"},
-	"debug":   {ID: "debug", GOOS: "linux", GOARCH: "amd64", Tags: "debug"},
+	"debug":   {ID: "debug", GOOS: "linux", GOARCH: "amd64", Tags: "debug", CGO: "0"},
 }
 
 const kcpPkgPath = "github.com/xtaci/kcp-go/v5"
